@@ -25,6 +25,34 @@ type c07Case struct {
 	// Injected is informational (what the generator did); the verdict is
 	// derived from the policy itself by judge().
 	Injected string `json:"injected"`
+	// Prev: history of the Policy value handed to the compiler: "" fresh; "valid-before" = the value held a valid policy,
+	// was compiled successfully, and was then overwritten field by field with this one; "invalid-before" = it held a
+	// policy that was rejected.
+	Prev string `json:"prev,omitempty"`
+}
+
+func c07Compile(p *spec.Policy, prev string) (c *compiled, err error, panicked any) {
+	if prev == "" {
+		return compilePolicy(p)
+	}
+	defer func() {
+		if x := recover(); x != nil {
+			panicked = x
+		}
+	}()
+	before := spec.Policy{Arch: p.Arch, Default: oracle.Const("SECCOMP_RET_ALLOW"), Groups: []spec.Group{{Action: oracle.Const("SECCOMP_RET_ERRNO"), Names: gen.Subset(gen.Universe(p.Arch), 7, 3)}}}
+	if prev == "invalid-before" {
+		before.Groups[0].Names = append(before.Groups[0].Names, before.Groups[0].Names[0], "no_such_syscall")
+	}
+	sp := before.ToSeccomp()
+	sp.Assemble()
+	q := p.ToSeccomp()
+	sp.DefaultAction, sp.Syscalls = q.DefaultAction, q.Syscalls
+	insts, err := sp.Assemble()
+	if err != nil {
+		return nil, err, nil
+	}
+	return &compiled{insts: insts}, nil, nil
 }
 
 type verdict struct {
@@ -180,7 +208,10 @@ func checkC07(raw json.RawMessage) (ev.Result, error) {
 		return ev.Result{}, ev.Inconclusivef("%s", inc)
 	}
 	res := ev.Result{}
-	cp, cerr, pan := compilePolicy(p)
+	if c.Prev != "" {
+		res.Classes = append(res.Classes, "value-history:"+c.Prev)
+	}
+	cp, cerr, pan := c07Compile(p, c.Prev)
 	if pan != nil {
 		return res, fmt.Errorf("Assemble panicked (injected: %s; defects %v): %v", c.Injected, v.defects, pan)
 	}
@@ -445,6 +476,12 @@ func drawC07(t *rapid.T) c07Case {
 		op := caseOps[rapid.IntRange(0, len(caseOps)-1).Draw(t, "caseOp")]
 		ce.Conds[ci].Op = op
 		c.Injected = fmt.Sprintf("operation spelled %q at condition %d of entry %d of group %d", op, ci, ei, gi)
+	}
+	switch rapid.IntRange(0, 7).Draw(t, "prevValue") {
+	case 0, 1:
+		c.Prev = "valid-before"
+	case 2:
+		c.Prev = "invalid-before"
 	}
 	return c
 }
